@@ -382,7 +382,7 @@ func c02Groups(tier string) []vGroup {
 	}
 	if tier == "thorough" {
 		gs = append(gs,
-			vGroup{Name: "w4-upto3-namespaces", Layouts: only3(sq.Layouts(4, 3, pads)), Depth: 2},
+			vGroup{Name: "w4-exactly3-namespaces", Layouts: only3(sq.Layouts(4, 3, nil)), Depth: 2},
 			vGroup{Name: "w8-fixed-list", Layouts: sq.Fixed8(), Depth: 2},
 		)
 	}
@@ -420,7 +420,7 @@ func TestVerifC02(t *testing.T) {
 		})
 		return
 	}
-	deadline := rep.Deadline(80*time.Second, 18*time.Minute)
+	deadline := rep.Deadline(80*time.Second, 19*time.Minute)
 	total := newStats()
 	wl := []string{"w2:TX1,A2,TAIL1", "w2:A1,C3"}
 	if rep.Tier == "thorough" {
